@@ -1564,16 +1564,30 @@ def c15_r17(ctx):
             if t.endswith(" in type_checking_imports"):
                 return not first
             return None
-        outs = [o for o in Interp(af, atom, is_effect=effa).run() if any("loop body once" in t for t in o.trace)]
-        good = bool(outs)
+        # the per-module table may be built in a helper of its own: the loop is read where it is, the insertion in _add_forward_ref_imports
+        lf = af
+        body_src = "list(type_checking_imports.values())"
+        if not any(isinstance(n_, ast.For) and norm(n_.iter) == "self.input_and_return_types" for n_ in ast.walk(af.node)):
+            for cand in repo.cls(CFR_[:-1]).methods.values():
+                if any(isinstance(n_, ast.For) and norm(n_.iter) == "self.input_and_return_types" for n_ in ast.walk(cand.node)) and \
+                        [norm(r_.value) for r_ in ast.walk(cand.node) if isinstance(r_, ast.Return) and r_.value is not None] == ["list(type_checking_imports.values())"] and \
+                        any(isinstance(c_, ast.Call) and norm(c_.func) == f"self.{cand.node.name}" for c_ in ast.walk(af.node)):
+                    lf, body_src = cand, f"self.{cand.node.name}()"
+        outs = [o for o in Interp(lf, atom, is_effect=effa).run() if any("loop body once" in t for t in o.trace)]
+        outs_ins = outs if lf is af else [o for o in Interp(af, atom, is_effect=effa).run() if o.kind in ("return", "fallthrough")]
+        good = bool(outs) and bool(outs_ins)
         cls = "<elem>(self.input_and_return_types)"
+        for o in outs_ins:
+            effs = [norm(strip_pre(subst(strip_pre(e), o.env, deep=True))) for e in o.effects]
+            ins = [e_ for e_ in effs if e_.startswith("module.body.insert(len(non_empty_imports), ")]
+            good = good and len(ins) == 2 and "ast.If(test=ast.Name(id='TYPE_CHECKING')" in ins[0].replace("TYPE_CHECKING_FLAG", "'TYPE_CHECKING'") and body_src in ins[0] \
+                and "ast.ImportFrom(module='typing'" in ins[1].replace("TYPE_CHECKING_MODULE", "'typing'") and "TYPE_CHECKING" in ins[1]
         for o in outs:
             effs = [norm(strip_pre(e)) for e in o.effects]
             created = any(e_.startswith(f"<setitem>(type_checking_imports, self.imported_classes[{cls}], ast.ImportFrom(module=self.imported_classes[{cls}], names=[], level=0))") for e_ in effs)
-            added = any(e_ == f"type_checking_imports[self.imported_classes[{cls}]].names.append(ast.alias({cls}))" or e_ == f"type_checking_imports[self.imported_classes[{cls}]].names.append(ast.alias(name={cls}))" for e_ in effs)
-            ins = [e_ for e_ in effs if e_.startswith("module.body.insert(len(non_empty_imports), ")]
-            good = good and created == first and added and len(ins) == 2 and "ast.If(test=ast.Name(id='TYPE_CHECKING')" in ins[0].replace("TYPE_CHECKING_FLAG", "'TYPE_CHECKING'") and "list(type_checking_imports.values())" in ins[0] \
-                and "ast.ImportFrom(module='typing'" in ins[1].replace("TYPE_CHECKING_MODULE", "'typing'") and "TYPE_CHECKING" in ins[1]
+            added = any(e_.startswith(f"type_checking_imports[self.imported_classes[{cls}]].names.append(ast.alias(") and e_.endswith(f"{cls}))") and
+                        e_[len(f"type_checking_imports[self.imported_classes[{cls}]].names.append(ast.alias("):-len(f"{cls}))")] in ("", "name=", "alias=") for e_ in effs)
+            good = good and created == first and added
         ctx.check(good, key(af, f"first of its module={first}"), f"[type that is {'the first' if first else 'a further one'} of its module] every moved type must be listed under `if TYPE_CHECKING:` in a `from <its module> import` "
                   f"(created once per module), the block inserted after the kept imports and `from typing import TYPE_CHECKING` in front of it: {[[norm(strip_pre(e))[:100] for e in o.effects] for o in outs][:1]}", af.loc(),
                   okmsg=f"_add_forward_ref_imports: {'new' if first else 'existing'} module entry, alias added, block + typing import inserted")
